@@ -484,21 +484,19 @@ class BzrUploader:
         except transport_errors.PathError:
             self._pending_deletions.append(relpath)
 
-    def finish_deletions(self):
-        """Complete all pending directory deletions.
+    def finish_deletions(self, below=None):
+        """Complete all pending directory deletions (or those below a path).
 
         Processes directories that couldn't be deleted earlier because
         they weren't empty. Deletions are performed in reverse order
         to ensure child directories are removed before their parents.
         """
-        if self._pending_deletions:
-            # Process the previously failed deletions in reverse order to
-            # delete children before parents
-            for relpath in reversed(self._pending_deletions):
+        # Process the previously failed deletions deepest first to delete
+        # children before parents
+        for relpath in sorted(self._pending_deletions, reverse=True):
+            if below is None or relpath.startswith(below + "/"):
                 self._up_rmdir(relpath)
-            # The following shouldn't be needed since we use it once per
-            # upload, but better safe than sorry ;-)
-            self._pending_deletions = []
+                self._pending_deletions.remove(relpath)
 
     def rename_remote(self, old_relpath, new_relpath):
         """Rename a remote file or directory taking care of collisions.
@@ -535,7 +533,8 @@ class BzrUploader:
         Finishes the two-stage rename process by renaming all temporarily
         named files to their final destinations.
         """
-        for stamp, new_path in self._pending_renames:
+        # Parents first: a renamed directory may receive renamed children.
+        for stamp, new_path in sorted(self._pending_renames, key=lambda r: r[1]):
             self._up_rename(stamp, new_path)
         # The following shouldn't be needed since we use it once per upload,
         # but better safe than sorry ;-)
@@ -608,7 +607,8 @@ class BzrUploader:
         # --create-prefix option ?)
         changes = self.tree.changes_from(from_tree)
         with self.tree.lock_read():
-            for change in changes.removed:
+            # Children first, so that their directories are empty in time.
+            for change in reversed(changes.removed):
                 if self.is_ignored(change.path[0]):
                     if not self.quiet:
                         self.outf.write(f"Ignoring {change.path[0]}\n")
@@ -623,7 +623,9 @@ class BzrUploader:
                     raise NotImplementedError
 
             renamed_from_ignored = []
-            for change in changes.renamed:
+            # Children first: they are moved aside while their old path is
+            # still valid, i.e. before a renamed parent directory is.
+            for change in reversed(changes.renamed):
                 if self.is_ignored(change.path[0]) and not self.is_ignored(
                     change.path[1]
                 ):
@@ -643,19 +645,24 @@ class BzrUploader:
                     # We update the change.path[0] content (and mode) because
                     # renames and deletions are differed.
                     self.upload_file(change.path[0], change.path[1])
+                if change.kind[0] == "directory":
+                    self.finish_deletions(below=change.path[0])
                 self.rename_remote(change.path[0], change.path[1])
-            self.finish_renames()
+            # Removed directories are empty now; their paths may be reused.
             self.finish_deletions()
+            self.finish_renames()
 
             for change in changes.kind_changed:
                 if self.is_ignored(change.path[1]):
                     if not self.quiet:
                         self.outf.write(f"Ignoring {change.path[1]}\n")
                     continue
+                # The renames are done: the entry is found under its new path
+                # (which differs from the old one if a parent was renamed).
                 if change.kind[0] in ("file", "symlink"):
-                    self.delete_remote_file(change.path[0])
+                    self.delete_remote_file(change.path[1])
                 elif change.kind[0] == "directory":
-                    self.delete_remote_dir(change.path[0])
+                    self.delete_remote_dir(change.path[1])
                 else:
                     raise NotImplementedError
 
